@@ -27,7 +27,7 @@ CANON_OPS = ["==", "!=", "<", ">", "<=", ">="]
 
 INT_VALS = [0, 1, -1, 7]
 FLOAT_VALS = [0.0, -0.0, 2.0, 2.5]
-STR_VALS = ["", "a", "b"]
+STR_VALS = ["", "a", "b", "1", "1.0"]
 BOOL_VALS = [False, True]
 # literals in every spelling Python's int() / float() accept (leading zeros, sign, surrounding blanks, digit-group underscores, exponents) and
 # some they reject for that type (a float literal against an int value, hex notation, the empty string): rejected ones must fail, not match
@@ -48,7 +48,7 @@ def _kind(v):
 
 # literals handed to the constructor as Python numbers (definitions built from spreadsheets, numpy columns ...): interpreted in the type of
 # the value they are compared to, exactly like text literals
-NUM_LITS = {"int": [7, 0, -1, 7.0, 7.4, True], "float": [2.5, 2, 0, True, -0.0], "bool": [1, 0, True, False, 1.0], "str": [7, 2.5]}
+NUM_LITS = {"int": [7, 0, -1, 7.0, 7.4, True], "float": [2.5, 2, 0, True, -0.0], "bool": [1, 0, True, False, 1.0], "str": [1, 1.0, True, 7, 2.5]}
 
 
 def _expect_cmp(op, selected, literal):
@@ -63,6 +63,28 @@ def _expect_cmp(op, selected, literal):
 
 def _is_bool(x, want):
     return x is want
+
+
+OTHER_OP = {"==": "!=", "!=": "==", "<": ">=", "<=": ">", ">": "<=", ">=": "<"}
+
+
+def _comparison(comparisons, lit, name, op, use_cal, edited):
+    """A Comparison stating (name op lit); edited: stated otherwise at first and then corrected through its public attributes."""
+    if not edited:
+        return comparisons.Comparison(lit, name, operator=op, use_calibrated_value=use_cal)
+    c = comparisons.Comparison(lit, "OTHER", operator=OTHER_OP.get(op, "=="), use_calibrated_value=not use_cal)
+    c.operator, c.referenced_parameter, c.use_calibrated_value = op, name, use_cal
+    return c
+
+
+def _condition(comparisons, left, op, edited, **kw):
+    if not edited:
+        return comparisons.Condition(left, op, **kw)
+    kw2 = dict(kw)
+    kw2["left_use_calibrated_value"] = not kw.get("left_use_calibrated_value", True)
+    c = comparisons.Condition("OTHER", OTHER_OP.get(op, "=="), **kw2)
+    c.left_param, c.operator, c.left_use_calibrated_value = left, op, kw.get("left_use_calibrated_value", True)
+    return c
 
 
 def _task_comparison(task):
@@ -85,7 +107,7 @@ def _task_comparison(task):
                             t.evals += 1
                             try:
                                 with observed_warnings():
-                                    c = comparisons.Comparison(lit, "P", operator=op, use_calibrated_value=use_cal)
+                                    c = _comparison(comparisons, lit, "P", op, use_cal, edited=t.evals % 3 == 0)
                                     got = c.evaluate(pkt)
                             except Exception as e:  # noqa: BLE001
                                 got = f"raised:{type(e).__name__}"
@@ -145,8 +167,8 @@ def _task_condition(task):
                         t.evals += 1
                         try:
                             with observed_warnings():
-                                c = comparisons.Condition("L", op, right_param="R", left_use_calibrated_value=lcal,
-                                                          right_use_calibrated_value=rcal)
+                                c = _condition(comparisons, "L", op, t.evals % 3 == 0, right_param="R", left_use_calibrated_value=lcal,
+                                               right_use_calibrated_value=rcal)
                                 got = c.evaluate(pkt)
                         except Exception as e:  # noqa: BLE001
                             got = f"raised:{type(e).__name__}"
@@ -207,8 +229,8 @@ def _task_condition(task):
                         t.evals += 1
                         try:
                             with observed_warnings():
-                                c = comparisons.Condition("L", op, right_value=lit, left_use_calibrated_value=lcal,
-                                                          right_use_calibrated_value=False)
+                                c = _condition(comparisons, "L", op, t.evals % 3 == 0, right_value=lit, left_use_calibrated_value=lcal,
+                                               right_use_calibrated_value=False)
                                 got = c.evaluate(CCSDSPacket(L=L))
                         except Exception as e:  # noqa: BLE001
                             got = f"raised:{type(e).__name__}"
